@@ -333,6 +333,50 @@ func checkC07(c *mc.Ctx) {
 		c.Ev.AddScenario(mc.Scenario{Name: "pid-neighbours-merges", SpaceSize: n, Executed: n, Exhaustive: true, Bound: "2 PMT PIDs x every elementary PID at Hamming distance 1 x all merges of PAT, PMT and three PES units"})
 	}
 
+	// two programmes whose PMTs name each other's PMT PID (and their own) as an elementary PID: what a table on one
+	// PID says about another PID does not change what that PID delivers (only the PAT decides where PMTs are)
+	{
+		var n int64
+		ccs := []uint8{1, 2, 3}
+		pat := modelPAT(1, 0x200, 2, 0x201)
+		pmtX := modelPMT(1, 0x201, 2)
+		pmtX.ElementaryStreams[0].ElementaryPID, pmtX.ElementaryStreams[1].ElementaryPID = 0x201, 0x200
+		mkY := func(v uint8) SUnit {
+			d := modelPMT(2, 0x300, int(v)+1)
+			return PSIUnit(0x201, 0, [][]byte{SecPMT(d, ref.SecHdr{CNI: true, Version: v})}, []ExpData{{Kind: "PMT", Table: d}})
+		}
+		y1, y2, y3 := mkY(0), mkY(1), mkY(2)
+		uX := PSIUnit(0x200, 0, [][]byte{SecPMT(pmtX, ref.SecHdr{CNI: true})}, []ExpData{{Kind: "PMT", Table: pmtX}})
+		lists := [][]*ref.Pkt{
+			Packetize(PSIUnit(0, 0, [][]byte{SecPAT(pat, ref.SecHdr{CNI: true})}, nil), nil, &ccs[0], true),
+			append(Packetize(uX, nil, &ccs[1], true), Packetize(uX, nil, &ccs[1], true)...),
+			append(append(Packetize(y1, nil, &ccs[2], true), Packetize(y2, nil, &ccs[2], true)...), Packetize(y3, nil, &ccs[2], true)...),
+		}
+		lens := []int{len(lists[0]), len(lists[1]), len(lists[2])}
+		mc.Merges(lens, func(o []int) bool {
+			if o[0] != 0 {
+				return true // the PAT comes first (a PMT PID is one from the PAT listing it on)
+			}
+			st := BuildStream("pmt-lists-pmt-pids", lists, append([]int{}, o...), nil)
+			out := DemuxBytes(st.Bytes)
+			got := byPID(out.Data)[0x201]
+			ok := len(got) == 3 && out.Panic == nil && len(out.Errs) == 0
+			for i, e := range []ExpData{y1.Exp[0], y2.Exp[0], y3.Exp[0]} {
+				if ok {
+					ok, _ = e.Matches(got[i])
+				}
+			}
+			if !ok {
+				c.Rep.Report("pmt-pid-affected-by-another-pmt", map[string]any{"kind": "stream", "what": fmt.Sprintf("order %v", o), "bytes": mc.Hex(st.Bytes), "message": fmt.Sprintf("PMT PID 0x201 carries 3 PMTs wherever the PMTs of PID 0x200 (which list 0x201 and 0x200 as elementary PIDs) fall; %d data delivered, errors %v", len(got), errStrings(out.Errs))})
+			}
+			n++
+			return true
+		})
+		c.Ev.DistinctAdd(n)
+		c.Ev.Class("pmt-lists-pmt-pids", n)
+		c.Ev.AddScenario(mc.Scenario{Name: "pmt-lists-pmt-pids-merges", SpaceSize: n, Executed: n, Exhaustive: true, Bound: "PAT first, then all merges of two PMT units on one PMT PID (listing both PMT PIDs as elementary PIDs) with three PMT units on the other"})
+	}
+
 	// insertions: null, adaptation-only of a used PID, TEI packet of a used PID, at every position of
 	// several base schedules
 	bases := [][]int{roundRobin(l.lists)}
